@@ -37,6 +37,9 @@ def execute(check, plan):
     if plan.get("level") == "rng":
         from . import rngcheck
         return rngcheck.run_plan(plan)
+    if plan.get("level") == "reuse":
+        from . import reuse
+        return reuse.run_plan(plan)
     if plan.get("level", "solver") == "solver":
         from . import runner
         return runner.run_plan(plan)
@@ -109,6 +112,11 @@ def samples(check, seed, tier):
                             shape=[len(plan["data"]["X"]), len(plan["data"]["X"][0])],
                             generator_seeds=plan["rng_draws"][:4] + ["... %d draws" % len(plan["rng_draws"])],
                             adversarial_components=plan["adversarial"]))
+            continue
+        if plan.get("level") == "reuse":
+            out.append(dict(run=run, level="solver-object reuse history", mode=plan["mode"],
+                            family={k: plan["family"][k] for k in ("solver", "datafit", "penalty")},
+                            knobs=plan["knobs"], storage=plan["storage"]))
             continue
         if plan.get("matrix"):
             out.append(dict(run=run, level="composition matrix cell", cell=plan.get("cell"),
